@@ -197,6 +197,17 @@ def partialDests (full : Dest) (roots : List Nat) : List Dest :=
   [full, ⟨roots, []⟩, ⟨full.trees, []⟩, ⟨roots, full.data⟩, ⟨everyOther full.trees, everyOther (full.data.drop 1)⟩,
    ⟨roots ++ everyOther (full.trees.drop 1), everyOther full.data⟩]
 
+/-- write-fault patterns of one copy run (`H:fault` sweeps on the real side fail every write of the destination in turn): none, one
+data / tree blob's pack (first, last, every other), flushed by `finalize()` or not, the index file, a snapshot file -/
+def faultPatterns (full : Dest) : List CopyFaults :=
+  let no : Nat → Bool := fun _ => false
+  let isIn (l : List Nat) : Nat → Bool := fun b => l.contains b
+  [⟨no, no, no, no, false, false⟩, ⟨no, no, no, no, true, false⟩, ⟨no, no, no, no, false, true⟩] ++
+  ([full.data.take 1, full.data.reverse.take 1, everyOther full.data].flatMap fun bad =>
+    [⟨isIn bad, no, isIn bad, no, false, false⟩, ⟨isIn bad, no, no, no, false, false⟩]) ++
+  ([full.trees.take 1, full.trees.reverse.take 1, everyOther full.trees].flatMap fun bad =>
+    [⟨no, isIn bad, no, isIn bad, false, false⟩, ⟨no, isIn bad, no, no, false, false⟩])
+
 def handle : List String → String
   | op :: rest =>
     let model := rest.takeWhile (· ≠ "|")
@@ -249,7 +260,12 @@ def handle : List String → String
         | some snaps =>
           let full := copyRun { trees := [], data := [] } snaps
           let okPartial := (partialDests full roots).all (fun p => snaps.all (fun s => s.present (copyRun p snaps)))
-          s!"copied restore={if destComplete d1 roots reach && destComplete d2 roots reach && okPartial then "ok" else "bad"}"
+          -- write faults on the destination: `copy` as written returns an error or leaves every snapshot readable
+          let okFaulty := (faultPatterns full).all fun f =>
+            match copyRunFaulty true f { trees := [], data := [] } snaps with
+            | none => true
+            | some d => snaps.all (fun s => s.present d)
+          s!"copied restore={if destComplete d1 roots reach && destComplete d2 roots reach && okPartial && okFaulty then "ok" else "bad"}"
     else "bad-op"
   | _ => "bad-op"
 
